@@ -56,6 +56,7 @@ type Params struct {
 	Closept string `json:"closept"`
 	Tail    string `json:"tail"`
 	Xreq    int    `json:"xreq"`
+	Sl      string `json:"sl"`
 }
 
 type Round struct {
@@ -124,7 +125,7 @@ func acceptFor(key string) string {
 
 type hdr struct{ name, val string }
 
-func (p Params) headers(key string) []hdr {
+func (p Params) headers(key, prevKey string) []hdr {
 	var upg, conn, acc, clen, pre, post, long []hdr
 	if p.Upg != "missing" {
 		v := "websocket"
@@ -142,6 +143,12 @@ func (p Params) headers(key string) []hdr {
 			v = acceptFor("dGhlIHNhbXBsZSBub25jZQ==") // a well-formed value for another key
 			if v == acceptFor(key) {
 				v = acceptFor("AAAAAAAAAAAAAAAAAAAAAA==")
+			}
+		}
+		if p.Acc == "stale" { // the right value for the key of the previous handshake
+			v = acceptFor("dGhlIHNhbXBsZSBub25jZQ==")
+			if prevKey != "" && prevKey != key {
+				v = acceptFor(prevKey)
 			}
 		}
 		acc = []hdr{{"Sec-WebSocket-Accept", v}}
@@ -174,17 +181,24 @@ func (p Params) headers(key string) []hdr {
 	return hs
 }
 
-func (p Params) response(key string) []byte {
+func (p Params) response(key, prevKey string) []byte {
 	var b bytes.Buffer
 	switch p.Status {
 	case 101:
-		b.WriteString("HTTP/1.1 101 Switching Protocols\r\n")
+		switch p.Sl {
+		case "noreason":
+			b.WriteString("HTTP/1.1 101\r\n")
+		case "custom":
+			b.WriteString("HTTP/1.1 101 Web Socket Protocol Handshake\r\n")
+		default:
+			b.WriteString("HTTP/1.1 101 Switching Protocols\r\n")
+		}
 	case 200:
 		b.WriteString("HTTP/1.1 200 OK\r\n")
 	default:
 		b.WriteString("HTTP/1.1 400 Bad Request\r\n")
 	}
-	for _, h := range p.headers(key) {
+	for _, h := range p.headers(key, prevKey) {
 		name, val := h.name, h.val
 		tokenVal := name == "Upgrade" || name == "Connection"
 		switch p.Hcase {
@@ -281,6 +295,8 @@ func (p Params) feat() string {
 		return "whitespace"
 	case p.Xh != "none":
 		return "headers"
+	case p.Sl != "canon" && p.Sl != "":
+		return "statusline"
 	case p.Hcase != "canon":
 		return "case"
 	case p.Ord != "canon":
@@ -523,6 +539,7 @@ type server struct {
 	ln       *net.TCPListener
 	port     int
 	hostport string
+	lastKey  string // Sec-WebSocket-Key of the previous round
 }
 
 type srvReport struct {
@@ -601,7 +618,8 @@ func (sv *server) serve(p Params, round int, seed int64, hs *hsState, out chan<-
 	if p.Closept == "noresp" {
 		return
 	}
-	resp := p.response(rep.req.key)
+	resp := p.response(rep.req.key, sv.lastKey)
+	sv.lastKey = rep.req.key
 	rep.rlen = len(resp)
 	fs := p.frames(round, seed)
 	var fbytes []byte
